@@ -196,7 +196,7 @@ func checkC05(c c05Case, ctx *vCtx) *vFailure {
 				r := vRunBin(inv, 30*time.Second)
 				ctx.Run(1)
 				if r.Exit == -999 {
-					vFault("real binary timed out on %v", inv.Args)
+					vHang("the real binary did not terminate within its time limit on %v", inv.Args)
 				}
 				if r.Stdout != first.Stdout || r.Failed != first.Failed {
 					return vFailSig("C05/"+strings.Join(cmd[:vMin(2, len(cmd))], "-"), "%v: a separate process gives a different result than the in-process run.\n--- in-process: failed=%v err=%q\n%s\n--- process %d: exit=%d stderr=%q\n%s", cmd, first.Failed, first.Err, vTrunc(first.Stdout, 1500), j, r.Exit, r.Stderr, vTrunc(r.Stdout, 1500))
